@@ -34,6 +34,20 @@ type OutObl struct {
 	Contract string   `json:"contract_file,omitempty"`
 }
 
+// countLoopHeaders: the number of loops of a function (blocks that dominate one of their predecessors).
+func countLoopHeaders(fn *ssa.Function) int {
+	n := 0
+	for _, b := range fn.Blocks {
+		for _, p := range b.Preds {
+			if b.Dominates(p) {
+				n++
+				break
+			}
+		}
+	}
+	return n
+}
+
 type Unit struct {
 	Rebound string // non-empty: the contract was verified under this renaming of identifiers (see rebind.go)
 	Name  string
@@ -662,10 +676,32 @@ func (kc *kernelCtx) hooks(b *Block, ts *TypeSpec, recv string, inline map[strin
 	}
 	h.Loop = func(fn *ssa.Function, ord int) *LoopSpec {
 		lb := kc.loops[b.Pkg+"::"+fmt.Sprintf("%s#%d", funcKey(fn), ord)]
+		ls := &LoopSpec{Name: fmt.Sprintf("loop#%d", ord)}
+		if lb == nil && fn.Parent() != nil && ord == 0 && countLoopHeaders(fn) == 1 {
+			// a loop that moved into a closure of the function (a deferred replay, a helper literal): the function's
+			// loop contract that no longer has a loop of its own is tried on it. The contract is checked on the moved
+			// loop like on any other (established, preserved, iteration); when it does not hold there the unit is
+			// undecided ("(rebound)" in the obligation names), never a violation.
+			root := fn
+			for root.Parent() != nil {
+				root = root.Parent()
+			}
+			n := countLoopHeaders(root)
+			var orphans []int
+			for k := n; k < n+8; k++ {
+				if kc.loops[b.Pkg+"::"+fmt.Sprintf("%s#%d", funcKey(root), k)] != nil {
+					orphans = append(orphans, k)
+				}
+			}
+			if len(orphans) == 1 {
+				lb = kc.loops[b.Pkg+"::"+fmt.Sprintf("%s#%d", funcKey(root), orphans[0])]
+				ls.Name = fmt.Sprintf("loop#%d(rebound)", orphans[0])
+				ls.EvOrd = orphans[0] + 1
+			}
+		}
 		if lb == nil {
 			return nil
 		}
-		ls := &LoopSpec{Name: fmt.Sprintf("loop#%d", ord)}
 		for _, c := range lb.all("invariant") {
 			ls.Invariant = append(ls.Invariant, c.Text)
 		}
